@@ -214,6 +214,20 @@ def _check(case):
     lines = [x for x in w[2].split("\n") if x]
     if len(lines) != len(set(lines)) and "editTimestamps" not in what:
         viols.append(Viol("reported-twice", f"{what}: 'warning' printed {w[2]!r}"))
+    # the process has no standard output at all (sys.stdout is None: pythonw.exe, a windowed frozen application, a detached service); print()
+    # is then a documented no-op, so a 'warning' run does what the 'silence' run does
+    import sys
+    saved = sys.stdout
+    sys.stdout = None
+    try:
+        try:
+            n_ = ("ok", f(fresh("warning")))
+        except Exception as e:  # noqa
+            n_ = ("exc", type(e).__name__)
+    finally:
+        sys.stdout = saved
+    if n_ != (s[0], s[1]):
+        viols.append(Viol("warning-needs-a-stdout", f"{what}: with sys.stdout = None (no console) the 'warning' run gives {n_!r}, with a console {w[:2]!r}"))
     outcome = "reported" if w[2] else "quiet"
     if "error" in modes:
         e = res["error"]
@@ -237,5 +251,5 @@ def part(prop):
                      rule="for every operation of this property that takes a reporting mode, on small fixtures where the reported event "
                           "happens and where it does not (%d rows): 'silence' prints nothing; 'warning' returns / leaves exactly what "
                           "'silence' does; 'warning' prints <=> 'error' raises; a non-raising 'error' run equals the 'silence' run; no "
-                          "message is printed twice" % n,
+                          "message is printed twice; with sys.stdout = None (a process without console) the 'warning' run equals the 'silence' run" % n,
                      bounds={"rows": n}, chunk=1)
